@@ -735,7 +735,7 @@ struct Case {
         cfg.setHost(u"127.0.0.1"_s);
         cfg.setPort(c.listener->serverPort());
         cfg.setAutoReconnectionEnabled(false);
-        cfg.setKeepAliveInterval(0);
+        cfg.setKeepAliveInterval(st["keepAlive"].toInt(0));
         cfg.setIgnoreSslErrors(true);
         const QString tls = st["tls"].toString(u"disabled"_s);
         cfg.setStreamSecurityMode(tls == u"required" ? QXmppConfiguration::TLSRequired : tls == u"enabled" ? QXmppConfiguration::TLSEnabled : QXmppConfiguration::TLSDisabled);
@@ -1183,6 +1183,13 @@ struct Case {
             }
             rec["stage"] = "success-sent";
             return finish(true);
+        }
+        if (op == u"sleep") {  // lets timers of the client fire (keep-alive, reconnection back-off)
+            QElapsedTimer t;
+            t.start();
+            const int ms = st["ms"].toInt(100);
+            while (t.elapsed() < ms) QCoreApplication::processEvents(QEventLoop::AllEvents | QEventLoop::WaitForMoreEvents, 5);
+            return true;
         }
         if (op == u"autoreply") {
             g_autoReplies.push_back({ st["childns"].toString(), st["xml"].toString() });
